@@ -37,7 +37,10 @@ def check(report, work, vh, prelude, cases, family="vm", tag="vm", maxsteps=3000
     usable = []
     for rec in recs:
         report.count("evaluations")
-        if rec.get("hang"):
+        if "fatal" in rec:
+            bump("real_fatal")
+            report.violation("the process dies of a runtime fatal error running %r: %s" % (rec.get("src"), rec["fatal"]), {"family": family, "case": {"src": rec.get("src"), "input": {"t": "null"}}, "actual": {"fatal": rec["fatal"]}})
+        elif rec.get("hang"):
             bump("real_hang")
             report.violation("the run does not return and does not react to its cancelled context: %r on %s (mask=%s cancel=%s)" % (rec["src"], jqgen.unV(rec["input"]), rec.get("mask"), rec.get("cancel")),
                              {"family": family, "case": {"src": rec["src"], "input": rec["input"], "mask": rec.get("mask") or 0, "cancel": rec.get("cancel") or 0}, "actual": {"hang": True}})
